@@ -47,6 +47,12 @@ def lowerOK (p : Params) (slack : Nat) : Rat → List Event → Bool
   | _, [] => true
   | prev, e :: r => decide (refusedAmong (owed p (e.1 - prev)) (e :: r) ≤ slack) && lowerOK p slack e.1 r
 
+/-- finished calls (small-step system) that were admitted and lie inside `[t0, t1]`: invoked at or after `t0`,
+    returned at or before `t1` -/
+def admittedWithin (t0 t1 : Rat) : List Done → Nat
+  | [] => 0
+  | d :: r => (if d.ok = true ∧ t0 ≤ d.start ∧ d.fin ≤ t1 then 1 else 0) + admittedWithin t0 t1 r
+
 /-- non-decreasing -/
 def sorted : List Rat → Bool
   | [] => true
@@ -83,5 +89,27 @@ def judgeGo (slack : Nat) (qps burst : Nat) (seg : List Event) (v : Verdict) : L
       let ev := seg.reverse
       judgeGo slack q b [] { v with upper := v.upper && upperOK p ev, lower := v.lower && lowerOK p slack 0 ev } r
     else judgeGo slack qps burst seg v r
+
+
+/-- what an observer records of a history: every acquire with its clock reading and answer, every `Resize`
+    with its answer -/
+def observe (A : Arith) : Bucket → List Op → List Obs
+  | _, [] => []
+  | b, .acquire now :: r => .acquire now (b.tryAcquire A now).1 :: observe A (b.tryAcquire A now).2 r
+  | b, .resize q bu :: r => .resize q bu (b.resize q bu).1 :: observe A (b.resize q bu).2 r
+
+/-- the clock readings of a history -/
+def opTimes : List Op → List Rat
+  | [] => []
+  | .acquire now :: r => now :: opTimes r
+  | .resize _ _ :: r => opTimes r
+
+/-- every reconfiguration stays within `uint32` -/
+def opsFit : List Op → Prop
+  | [] => True
+  | .acquire _ :: r => opsFit r
+  | .resize _ bu :: r => bu < 4294967296 ∧ opsFit r
+
+def allTrue : Verdict := { upper := true, lower := true, resize := true }
 
 end KG.Spec.TokenBucket
